@@ -44,6 +44,9 @@ def gen_script(rng, stage=None, maxlen=8):
     n = rng.randrange(0, maxlen + 1)
     xs = rng.sample(range(1, 40), n)
     cfg = "stage=%s cap=%d fn=%d" % (st, cap, rng.choice([2, 3, 5]))
+    if st in ("Map", "Filter", "Partition", "TakeWhile") and rng.random() < 0.2:
+        # the stage function is the application's own morphism: a struct embedding a pipe.F with its own Apply
+        cfg += " deco=1"
     tk = 0
     if st == "Take":
         tk = rng.randrange(0, n + 3)
